@@ -598,6 +598,8 @@ def check_contract(con: Contract, rep: Report, engine=None, crosscheck=True, kno
             if st == "refuted":
                 o.model = model_to_dict(model)
                 o.replay = replay_refutation(con, raw, combo, s, p, model, goal)
+            elif st == "discharged" and crosscheck and con.native is not False and getattr(p.run, "overapprox", False):
+                rep.crosscheck_skipped = getattr(rep, "crosscheck_skipped", 0) + 1     # nondeterministic model: no single native run corresponds
             elif st == "discharged" and crosscheck and con.native is not False:
                 crosscheck_path(con, raw, combo, s, p, rep, oid)
             for ai, (apc, aform, alabel) in enumerate(getattr(p.run, "asserts", [])):
